@@ -323,6 +323,50 @@ func report(cfg *PropCfg, tier string, seed int64, results []*HarnessResult, hcf
 		"known_findings_seen":         knownSeen,
 		"exhaustive":                  false,
 	}
+	// engine-wide trusted base and assumptions, derived from what this run actually used
+	tb := append([]string{}, cfg.TrustedBase...)
+	as := append([]string{}, cfg.Assumptions...)
+	tb = append(tb, "go/ssa construction (golang.org/x/tools v0.29.0) and the Go 1.25.0 type checker",
+		"symgo: instruction semantics, cooperative scheduler (one canonical schedule except where a harness marks a choice), re-execution forking",
+		"SMT solvers: z3 4.8.12 (resident, incremental), z3 5.1.0 and cvc5 1.0 (portfolio on unknown or in one-shot mode); any (error line or sat/unsat disagreement makes the run inconclusive",
+		"native replay: every counterexample is re-run against the natively compiled code (real crypto, real bbolt) before it is reported")
+	has := func(sub string) bool {
+		for s := range stubs {
+			if strings.Contains(s, sub) {
+				return true
+			}
+		}
+		for f := range funcs {
+			if strings.Contains(f, sub) {
+				return true
+			}
+		}
+		return false
+	}
+	if has("kyber") || has("zzfake") {
+		tb = append(tb, "ideal model of the pairing crypto at the kyber boundary: keys/points/scalars are tags, Sign(s,m)=H(pub(s)||m), Verify is equality with it, PubPoly.Eval / PriPoly.Eval tie share i to the commitments, RecoverCommit of >= deg+1 distinct verified shares yields the group signature (BLS uniqueness), fewer yield a different point")
+		as = append(as, "unforgeability of BLS/Schnorr is NOT modelled or needed: assertions have the form 'accepted/stored => verifies'", "point decoding validity is an uninterpreted predicate of the bytes (encodings the model produced are valid)")
+	}
+	if has("sha256") || has("blake2b") || has("sha3") || has("zzverif.Hash") {
+		as = append(as, "SHA-256 / BLAKE2b-256 / Keccak-256 are injective (collision resistance): modelled as injective uninterpreted functions, concrete inputs are hashed for real")
+	}
+	if has("bbolt") {
+		tb = append(tb, "bbolt model: byte-key sorted buckets, Update all-or-nothing on nil error (crash points before the callback and after commit), View on a snapshot")
+	}
+	if has("encoding/json") || has("toml") {
+		as = append(as, "reflection-driven text codecs (encoding/json, BurntSushi/toml, hexjson) are an identity codec on the Go value: byte-level text round trips are outside the claim")
+	}
+	if has("opaque.") || has("tracer.NewSpan") {
+		as = append(as, "logging, tracing and metrics calls are no-ops (their arguments are recorded only where a property observes them)")
+	}
+	if has("context.") {
+		as = append(as, "context deadlines never fire by themselves; cancellation happens only through cancel functions (or where a harness makes it an environment event)")
+	}
+	if has("time.Now") {
+		as = append(as, "direct time.Now() inside drand is a fixed instant in the engine; harnesses express instants relative to it with margins of at least one hour")
+	}
+	cfg.TrustedBase, cfg.Assumptions = tb, as
+	cov["trusted_base"] = tb
 	ev := map[string]interface{}{
 		"property_id": cfg.Property,
 		"tier":        tier,
